@@ -79,6 +79,9 @@ class Ocp(Stage):
 
     @property
     def _transcribed(self):
+        return self._get_transcribed()
+
+    def _get_transcribed(self, **kwargs):
         if self._is_original:
             if self._is_transcribed:
                 return self._augmented
@@ -92,14 +95,19 @@ class Ocp(Stage):
                 self._var_augmented = augmented
                 augmented._placeholders = self._placeholders
                 
-                return self._augmented._transcribed
+                return self._augmented._get_transcribed(**kwargs)
         else:
-            self._transcribe()
+            self._transcribe(**kwargs)
             return self
         
     def transcribe(self,**kwargs):
-        self._untranscribe()
-        self._transcribe(**kwargs)
+        if self._is_original:
+            # like solve() and the queries, work on the augmented copy: the declaration stays as the user wrote it
+            self._set_transcribed(False)
+            self._get_transcribed(**kwargs)
+        else:
+            self._untranscribe()
+            self._transcribe(**kwargs)
 
     def _transcribe(self,**kwargs):
         if not self.is_transcribed:
